@@ -24,6 +24,7 @@ import (
 	"math/rand/v2"
 	"strings"
 	"testing"
+	"time"
 
 	"github.com/consensys/gnark/constraint/solver"
 	"github.com/consensys/gnark/logger"
@@ -58,16 +59,22 @@ func TestC13(t *testing.T) {
 	}
 	r := vcore.Start(t, "C13")
 
-	honestRangeGrid(r)
-	honestRangeTiny(r)
-	honestRangeMixes(r)
-	honestLookups(r)
-	advRange(r)
-	advLookup(r)
-	twoPass(r)
-	challengeDependence(r)
-	realProvers(r)
-	testEngineSample(r)
+	parts := []struct {
+		name string
+		f    func(*vcore.Run)
+	}{
+		{"honest-range-grid", honestRangeGrid}, {"honest-range-tinyfield", honestRangeTiny}, {"honest-range-mixes", honestRangeMixes},
+		{"honest-range-expressions", exprChecks}, {"honest-lookups", honestLookups}, {"adv-range", advRange}, {"adv-lookup", advLookup},
+		{"adv-several-gadgets", advMulti}, {"two-pass-prover", twoPass}, {"challenge-dependence", challengeDependence},
+		{"real-provers", realProvers}, {"test-engine-sample", testEngineSample},
+	}
+	secs := map[string]float64{}
+	for _, p := range parts {
+		t0 := time.Now()
+		p.f(r)
+		secs[p.name] = float64(time.Since(t0).Milliseconds()) / 1000
+	}
+	r.Set("seconds_per_part", secs)
 
 	r.Require("rc.honest.accepted.commit", 50)
 	r.Require("rc.honest.accepted.plain", 50)
@@ -84,6 +91,9 @@ func TestC13(t *testing.T) {
 	r.Require("adv.lk.rejected", 100)
 	r.Require("adv.lk.result-lies-applied", 100)
 	r.Require("adv.lk.count-lies-applied", 50)
+	r.Require("rc.expr.accepted", 20)
+	r.Require("rc.expr.rejected", 20)
+	r.Require("adv.multi.rejected", 50)
 	r.Require("twopass.rejected", 8)
 	r.Require("twopass.challenge-moved", 8)
 	r.Require("chal.pairs-compared", 10)
@@ -165,7 +175,7 @@ func runRC(r *vcore.Run, fc fieldCtx, b string, sh *rcShape, cases []rcCase, par
 		default:
 			r.Count(cnt+".rejected."+strat, 1)
 			r.Count("rc.reject-reason["+strat+"]: "+bucket(serr), 1)
-			r.SampleClass("rc.honest.rejected."+strat+"."+b, rep)
+			r.SampleClass(cnt+".rejected."+strat, rep)
 		}
 	}
 }
@@ -208,10 +218,10 @@ func honestRangeGrid(r *vcore.Run) {
 		rng := r.Rand(fmt.Sprintf("grid/%s/%s/%d/%v", j.fc.name, j.b, j.n, j.plain))
 		sh := &rcShape{nVals: 1, checks: []rcCheck{{v: 0, bits: j.n}}, plain: j.plain}
 		var cases []rcCase
-		for _, v := range inValues(rng, j.n, j.fc.mod, r.Pick(4, 6)) {
+		for _, v := range inValues(rng, j.n, j.fc.mod, r.Pick(4, 8)) {
 			cases = append(cases, rcCase{[]*big.Int{v}, fmt.Sprintf("n=%d v=%s (in range)", j.n, v)})
 		}
-		for _, v := range outValues(rng, j.n, j.fc.mod, r.Pick(6, 10)) {
+		for _, v := range outValues(rng, j.n, j.fc.mod, r.Pick(6, 14)) {
 			cases = append(cases, rcCase{[]*big.Int{v}, fmt.Sprintf("n=%d v=%s (out of range)", j.n, v)})
 		}
 		runRC(r, j.fc, j.b, sh, cases, "grid")
@@ -519,7 +529,7 @@ func honestLookups(r *vcore.Run) {
 	for _, fc := range []fieldCtx{fBN254, fBLS377} {
 		for _, size := range sizes {
 			for kind := 0; kind < 3; kind++ {
-				for variant := 0; variant < r.Pick(2, 4); variant++ {
+				for variant := 0; variant < r.Pick(2, 8); variant++ {
 					for _, b := range builders {
 						jobs = append(jobs, job{fc, b, size, kind, variant})
 					}
@@ -643,7 +653,7 @@ func runLKHonest(r *vcore.Run, fc fieldCtx, b string, sh *lkShape, rng *rand.Ran
 		cst := &countStats{}
 		serr, pan := solve(sys, w, rec.opt(), hashCommit(nil), lyingCount("honest", fc.mod, nil, cst))
 		r.Eval(fmt.Sprintf("lk|%s|%s|%s|%v|%v", fc.name, b, sh.String(), strs(ent), strs(cs.idx)), len(qs) > 0)
-		rep := map[string]any{"field": fc.name, "builder": b, "shape": sh.String(), "ops": fmt.Sprintf("%+v", sh.ops), "entries": strs(ent), "indices": strs(cs.idx), "pattern": cs.note, "solver_said": fmt.Sprint(serr), "strategy": "logderiv-commit"}
+		rep := map[string]any{"field": fc.name, "builder": b, "shape": sh.String(), "ops": sh.opsString(), "entries": strs(ent), "indices": strs(cs.idx), "pattern": cs.note, "solver_said": fmt.Sprint(serr), "strategy": "logderiv-commit"}
 		r.Count("strategy.lookup-logderiv."+b, 1)
 		switch {
 		case pan != "":
@@ -663,7 +673,7 @@ func runLKHonest(r *vcore.Run, fc fieldCtx, b string, sh *lkShape, rng *rand.Ran
 			if mustReject {
 				r.Count("lk.honest.rejected-out-of-table", 1)
 				r.Count("lk.reject-reason: "+bucket(serr), 1)
-				r.SampleClass("lk.honest.rejected."+b, rep)
+				r.SampleClass("lk.honest.rejected", rep)
 			} else {
 				r.Count("lk.honest.rejected-index-not-yet-inserted(allowed)", 1)
 			}
@@ -689,7 +699,9 @@ func runLKHonest(r *vcore.Run, fc fieldCtx, b string, sh *lkShape, rng *rand.Ran
 			r.Violation("lookup-wrong-result/"+b, fmt.Sprintf("query %d returned %v, table holds %s", bad, rec.get(bad), exp[bad]), rep)
 			continue
 		}
-		r.SampleClass("lk.honest.accepted."+b, rep)
+		if len(qs) > 2 {
+			r.SampleClass("lk.honest.accepted", rep)
+		}
 		// the results are really tied to the arithmetic that uses them
 		if sh.useSum && len(qs) > 0 {
 			w2, _ := circuits.MakeWitness(fc.mod, []*big.Int{one, new(big.Int).Mod(new(big.Int).Add(sum, one), fc.mod)}, append(append([]*big.Int{}, ent...), cs.idx...))
@@ -716,7 +728,7 @@ func advRange(r *vcore.Run) {
 	var jobs []job
 	sizes := []int{1, 1, 2, 5, 30, 250}
 	if r.Thorough() {
-		sizes = []int{1, 1, 1, 2, 2, 5, 5, 30, 30, 250, 250, 1200}
+		sizes = []int{1, 1, 1, 1, 1, 1, 2, 2, 3, 5, 5, 12, 30, 30, 100, 250, 250, 1200}
 	}
 	for _, fc := range []fieldCtx{fBN254, fBLS377} {
 		for k, nv := range sizes {
@@ -740,7 +752,7 @@ func advRange(r *vcore.Run) {
 			r.Inconclusive("adv-rc-compile")
 			return
 		}
-		cases := mixCases(rng, sh, j.fc.mod, 0, r.Pick(3, 6))
+		cases := mixCases(rng, sh, j.fc.mod, 0, r.Pick(3, 10))
 		for _, cs := range cases {
 			w, _ := circuits.MakeWitness(j.fc.mod, []*big.Int{one}, cs.vals)
 			for _, dk := range decompLieKinds {
@@ -782,7 +794,9 @@ func advRange(r *vcore.Run) {
 						if lg.calls > 0 {
 							r.Count("adv.rc.rejected-after-commitment-computed", 1)
 						}
-						r.SampleClass("adv.rc."+dk+"+"+ck, rep)
+						if dst.lied > 0 && cst.lied > 0 {
+							r.SampleClass("adv.rc."+dk, rep)
+						}
 					}
 				}
 			}
@@ -792,7 +806,7 @@ func advRange(r *vcore.Run) {
 
 // ================================================================== adversarial lookups
 
-var resultLieKinds = []string{"other-entry", "value+1", "random-value", "zero", "oob-served-entry", "oob-served-garbage", "first-occurrence-only"}
+var resultLieKinds = []string{"other-entry", "value+1", "random-value", "zero", "oob-served-entry", "oob-served-garbage", "first-occurrence-only", "collide-if-rowcoeff-is-1"}
 
 func advLookup(r *vcore.Run) {
 	type job struct {
@@ -825,7 +839,7 @@ func advLookup(r *vcore.Run) {
 			r.Inconclusive("adv-lk-compile")
 			return
 		}
-		for wi := 0; wi < r.Pick(2, 4); wi++ {
+		for wi := 0; wi < r.Pick(2, 12); wi++ {
 			ent := lkEntries(rng, sh.nEnt, p)
 			for _, rk := range resultLieKinds {
 				idx := make([]*big.Int, sh.nIdx)
@@ -917,6 +931,17 @@ func advLookup(r *vcore.Run) {
 							}
 							return nil
 						}
+					case "collide-if-rowcoeff-is-1":
+						// serve v' with i + v' == j + table[j] for the next row j: the tuple collides with a
+						// genuine row if the second column is not multiplied by an unpredictable coefficient
+						lie.alter = func(ix uint64, ok bool, h *big.Int) *big.Int {
+							if isTarget(ix, ok) && j.size >= 2 {
+								nx := (int64(ix) + 1) % int64(j.size)
+								v := new(big.Int).Add(tab[nx], big.NewInt(nx-int64(ix)))
+								return v.Mod(v, p)
+							}
+							return nil
+						}
 					case "first-occurrence-only":
 						done := false
 						lie.alter = func(ix uint64, ok bool, h *big.Int) *big.Int {
@@ -991,7 +1016,7 @@ func advLookup(r *vcore.Run) {
 						r.Count("adv.lk.count-lies-applied", 1)
 						r.Count("adv.lk.count-lie."+ck, 1)
 					}
-					rep := map[string]any{"field": j.fc.name, "builder": j.b, "shape": sh.String(), "ops": fmt.Sprintf("%+v", sh.ops), "entries": strs(ent), "indices": strs(idx), "table": strs(tab),
+					rep := map[string]any{"field": j.fc.name, "builder": j.b, "shape": sh.String(), "ops": sh.opsString(), "entries": strs(ent), "indices": strs(idx), "table": strs(tab),
 						"result_lie": rk, "served": lie.served, "count_lie": ck, "solver_said": fmt.Sprint(serr), "public_sum": sum.String(), "strategy": "logderiv-commit"}
 					if len(tab) > 64 {
 						delete(rep, "table")
@@ -1013,11 +1038,12 @@ func advLookup(r *vcore.Run) {
 						if lg.calls > 0 {
 							r.Count("adv.lk.rejected-after-commitment-computed", 1)
 						}
-						r.SampleClass("adv.lk."+rk+"+"+ck, rep)
+						if cst.lied > 0 && rk != "zero" && rk != "random-value" {
+							r.SampleClass("adv.lk."+rk, rep)
+						}
 					}
 				}
 			}
 		}
 	})
 }
-
